@@ -99,7 +99,48 @@ def enumerate_prefixes(build, max_len):
 
     The prefixes partition the builder's decision tree, so fixing the leading tape symbols of
     a harness to each prefix in turn yields disjoint shards whose union is the whole tree.
+
+    `build` usually runs the harness body, i.e. the code under test, natively: it is run in a forked child so that
+    whatever that code remembers between calls (a cache, a consumed iterator) stays out of the process the exploration
+    workers are later forked from.
     """
+    return forked(_enumerate_prefixes, build, max_len)
+
+
+def forked(fn, *args):
+    """fn(*args) evaluated in a forked child; the (picklable) result is sent back.  Falls back to a direct call."""
+    import multiprocessing as mp
+    import os
+
+    try:
+        ctx = mp.get_context("fork")
+        r, w = ctx.Pipe(duplex=False)
+    except Exception:  # noqa: BLE001
+        return fn(*args)
+
+    def child():
+        try:
+            w.send(("ok", fn(*args)))
+        except BaseException as e:  # noqa: BLE001
+            w.send(("err", repr(e)))
+        finally:
+            w.close()
+            os._exit(0)
+
+    p = ctx.Process(target=child, daemon=True)
+    p.start()
+    w.close()
+    try:
+        kind, val = r.recv()
+    except EOFError:
+        kind, val = "err", "child died"
+    p.join(timeout=30)
+    if kind == "err":
+        raise RuntimeError(f"forked evaluation failed: {val}")
+    return val
+
+
+def _enumerate_prefixes(build, max_len):
     out, stack = [], [[]]
     while stack:
         p = stack.pop()
